@@ -4,7 +4,7 @@
 (* flag combinations, with and without extensions (C11).  No transitions:  *)
 (* every initial state is one pair, checked against the laws and printed.  *)
 (***************************************************************************)
-EXTENDS Locale, Ascii, TLC, Json
+EXTENDS Locale, Ascii, TLC, Json, IOUtils
 
 CONSTANTS Kind,     \* "match": emit matches() cases; "cmp": emit comparison cases (C12)
           Domain    \* "base": 108 identifiers x 3 extension settings; "near": 500 identifiers whose fields are NEAR
@@ -14,15 +14,20 @@ CONSTANTS Kind,     \* "match": emit matches() cases; "cmp": emit comparison cas
 VARIABLES a, b, ea, eb, ph
 
 Near == Domain = "near"
-Langs    == IF Near THEN { B("und"), B("en"), B("em"), B("fn"), B("eng") } ELSE { B("und"), B("en"), B("de") }
-Scripts  == IF Near THEN { <<>>, B("Latn"), B("Lato"), B("Matn"), B("Laun") } ELSE { <<>>, B("Latn"), B("Cyrl") }
-Regions  == IF Near THEN { <<>>, B("US"), B("UT"), B("VS"), B("001"), B("005"), B("011"), B("101"), B("150"), B("154") }
+(* Domain = "dict": every language the library's own sources mention (VERIF_DICT) against every other one -- a table that  *)
+(* maps one code onto another (legacy / alias codes) makes two DIFFERENT languages match                                   *)
+Dict == Domain = "dict"
+DictRaw == JsonDeserialize(IOEnv.VERIF_DICT)
+DictLangs == { CanonLanguage(DictRaw[q]) : q \in { x \in 1..Len(DictRaw) : IsLanguage(DictRaw[x]) } }
+Langs    == IF Dict THEN DictLangs \cup { B("und"), B("en") } ELSE IF Near THEN { B("und"), B("en"), B("em"), B("fn"), B("eng") } ELSE { B("und"), B("en"), B("de") }
+Scripts  == IF Dict THEN { <<>>, B("Latn") } ELSE IF Near THEN { <<>>, B("Latn"), B("Lato"), B("Matn"), B("Laun") } ELSE { <<>>, B("Latn"), B("Cyrl") }
+Regions  == IF Dict THEN { <<>> } ELSE IF Near THEN { <<>>, B("US"), B("UT"), B("VS"), B("001"), B("005"), B("011"), B("101"), B("150"), B("154") }
             ELSE { <<>>, B("US"), B("419") }
-VarLists == IF Near THEN { <<>>, <<B("valencia")>> }
+VarLists == IF Dict THEN { <<>> } ELSE IF Near THEN { <<>>, <<B("valencia")>> }
             ELSE { <<>>, <<B("valencia")>>, <<B("1996"), B("valencia")>>, <<B("1996")>> }
 Ids == { [lang |-> l, script |-> s, region |-> r, variants |-> v] :
            l \in Langs, s \in Scripts, r \in Regions, v \in VarLists }
-ExtKinds == IF Near THEN {"none"} ELSE {"none", "ut", "x"}
+ExtKinds == IF Near \/ Dict THEN {"none"} ELSE {"none", "ut", "x"}
 
 (* zero-arity constants: TLC evaluates them once                            *)
 KwCa  == << <<B("ca"), <<B("buddhist")>>>> >>
@@ -66,7 +71,7 @@ PrivateRule == \A i \in 1..4 :
 OrderTotal == /\ (a = b) = (CmpLI(a, b) = "eq")
               /\ (CmpLI(a, b) = "lt") = (CmpLI(b, a) = "gt")
               /\ a # b => (LessLI(a, b) /\ ~LessLI(b, a)) \/ (LessLI(b, a) /\ ~LessLI(a, b))
-OrderTransitive == (~Near /\ ea = "none" /\ eb = "none" /\ LessLI(a, b)) =>
+OrderTransitive == (~Near /\ ~Dict /\ ea = "none" /\ eb = "none" /\ LessLI(a, b)) =>
                       \A c \in Ids : LessLI(b, c) => LessLI(a, c)
 TextInjective == /\ (a = b) = (SerLI(a) = SerLI(b))
                  /\ (A = Bv) = (SerLoc(A) = SerLoc(Bv))
